@@ -56,6 +56,12 @@ func Run(o *hx.Opts, w *lineio.Writer, prop int) error {
 			id, in := g.Malformed(i)
 			jobs = append(jobs, job{id, in, false})
 		}
+		if prop == 1 || prop == 2 || prop == 5 {
+			// builder stream: plugins given programs of pkg/api helper calls (builder.go)
+			for _, s := range BuilderJobs(o.Rand(int64(200+prop)), o.Budget <= 1, o.N(1500, 40000)) {
+				jobs = append(jobs, job{s.id, s.in, false})
+			}
+		}
 	}
 	nrig := runtime.NumCPU() / 2
 	if nrig < 1 {
